@@ -281,12 +281,15 @@ def rule_R5_labelled_for(text, log):
 # prelude functions (whose trusted contract is the std documentation).
 R6_TABLE = [
     (r'&src\[([^\[\]]+?)\.\.\]', r'src.vx_from(\1)'),
-    (r'\bsrc\[(\d+)\]', r'src.vx_at(\1)'),
+    (r'\bu16::from_be_bytes\(src\[(\w+)\.\.\1 \+ 2\]\.try_into\(\)\.unwrap\(\)\)', r'vx_be16_at(src, \1)'),
+    (r'&src\[(\w+) \+ 2\.\.\1 \+ 6\] == MQTT', r'vx_eq_mqtt_at(src, \1 + 2)'),
+    (r'\bsrc\[([^\[\]\.]+)\]', r'src.vx_at(\1)'),
     (r'\bu16::from_be_bytes\(\[([^\[\],]+),\s*([^\[\],]+)\]\)', r'vx_u16_from_be(\1, \2)'),
     (r'\.map_err\(\|\(\)\| DecodeError::Utf8Error\)', '.vx_map_err_utf8()'),
     (r'\.map_or\(0, Bytes::len\)', '.vx_map_or_0_len()'),
     (r'\(\*cb\)\(', 'cb.vx_call('),
     (r'\|_\|', '|_vx0|'),
+    (r'peer_receive_max\s*\.map_or\(max_send_cfg, \|val\| cmp::min\(max_send_cfg, val\)\)', 'vx_min_opt(max_send_cfg, peer_receive_max)'),
     (r'([\w.]+(?:\([^()]*\))?(?:\.unwrap\(\))?)\.as_str\(\) != ([\w.]+)\.as_str\(\)', r'!vx_bstr_eq(\1.vx_b(), \2.vx_b())'),
     (r'(?<![\w.])topic\.is_empty\(\)', 'vx_str_is_empty(topic)'),
     (r'(?<![\w.])topic\.bytes\(\)', 'vx_str_bytes(topic)'),
